@@ -106,7 +106,9 @@ PROPS = {
                      dict(rep("rebuild", 96, 30, 800, 40, 58), **{"thorough": {"n": 800, "len": 40, "timeout": 6000}})],
             "modelled": FS + ["the path through the controller (range check, the widening of sub-block writes while a WO replica is attached) is exercised by the rebuild profile: real controller, real remote backend, three real replicas; every write is read back through the controller and from each replica"]},
     "C06": {"lean": ["JivaVerif.Properties.C06"],
-            "runs": [rep("snapshots", 640, 32, 10000, 45, 2)], "modelled": FS},
+            "runs": [rep("snapshots", 640, 32, 10000, 45, 2),
+                     dict(rep("rebuild", 96, 30, 800, 40, 68), **{"thorough": {"n": 800, "len": 40, "timeout": 6000}})],
+            "modelled": FS + ["'rebuild bookkeeping … leaves every retained user-created snapshot byte-identical': the rebuild profile (reload without preload, UpdateLUNMap with and without a foreground write inside its window, promotion) is run for C06 as well; snapshot images are compared after it"]},
     "C07": {"lean": ["JivaVerif.Properties.C07", "JivaVerif.Properties.Controller"],
             "prefixes": ["c07_", "sameWrites_", "c10_promotion", "ctl_reachable_inv"],
             "runs": [dict(rep("rebuild", 320, 30, 3000, 40, 8), **{"thorough": {"n": 3000, "len": 40, "timeout": 6000}}), ctl("membership", 320, 30, 6000, 40, 18),
